@@ -432,5 +432,5 @@ func (a mappingArray) Swap(i int, j int) { a[i], a[j] = a[j], a[i] }
 func (a mappingArray) Less(i int, j int) bool {
 	ai := a[i]
 	aj := a[j]
-	return ai.GeneratedLine < aj.GeneratedLine || (ai.GeneratedLine == aj.GeneratedLine && ai.GeneratedColumn <= aj.GeneratedColumn)
+	return ai.GeneratedLine < aj.GeneratedLine || (ai.GeneratedLine == aj.GeneratedLine && ai.GeneratedColumn < aj.GeneratedColumn)
 }
